@@ -104,6 +104,8 @@ def m_fields(ctx, case):
         data = (hdr << 16 | sdv) << rest | (rng.getrandbits(rest) if rest else 0)
         f = bits.uplink(data, n, sub["addr"])
         hx = "%0*X" % (n // 4, f)
+        if rng.random() < 0.1:
+            hx = hx.lower()
         e = expect(ufv, pc, rr, di, sdv, pr, icf, cl)
         got = {}
         for nm in ("uf", "bds", "pr", "ic", "lockout", "uplink_fields", "uplink_icao"):
